@@ -68,6 +68,12 @@ Lemma apply_general st c x d p :
   cd_find (sv_cdata (st_sv st')) (c, u_id x) = Some src /\
   exists x2 ch,
     find_uni (sv_unis (st_sv st')) (u_id x) = Some x2 /\
+    merge_all (st_now st) (sv_cdata (st_sv st'))
+      {| u_id := u_id x; u_htp := u_htp x; u_name := u_name x; u_buf := u_buf x; u_aprio := u_aprio x;
+         u_srcs := u_srcs x2; u_sinks := u_sinks x |} c = (x2, ch) /\
+    u_srcs x2 = (if src_memb c (u_srcs x)
+                 then map (fun e => if fst e =? c then (c, false) else e) (u_srcs x)
+                 else u_srcs x ++ [(c, false)]) /\
     src_memb c (u_srcs x2) = true /\ u_sinks x2 = u_sinks x /\
     (let L := lives (st_now st) (sv_cdata (st_sv st')) (u_id x) (u_srcs x2) in
      let G := group L in
@@ -126,7 +132,7 @@ Proof.
   rewrite <- Estf.
   split; [rewrite F1, Hsv3; cbn; apply cd_find_set_same|].
   exists x2, ch. rewrite F1, Hsv3. cbn [sv_unis sv_cdata].
-  split; [exact Hfx|]. split; [rewrite M4; exact Hsm|]. split; [exact M3|].
+  split; [exact Hfx|]. split; [rewrite M4; exact Em|]. split; [exact M4|]. split; [rewrite M4; exact Hsm|]. split; [exact M3|].
   split.
   { rewrite M4. split; [exact M1|]. split; [exact M7|].
     intros Hch. destruct (M8 Hch) as (cs & Hin & Hf & Hh & Hl).
